@@ -189,16 +189,20 @@ def fieldsRaw (d : Defects) (σ : Table → Table) : Nat → Ty → Table
     | .struct fs => fieldsLoop d σ (fieldsRaw d σ n) fs []
     | _ => []
 
+/-- the tag the repaired `FieldsFromStruct` enters for a collected name: what `reflect`'s
+`FieldByName` says (the proposed patch) -/
+def resolvedTag (d : Defects) (t : Ty) (n : String) : Option Tag :=
+  match reflField t n with
+  | .found f => if d.unexportedAccepted || f.exported then some { ty := some f.ty } else none
+  | .ambiguous => some { ambiguous := true }
+  | .notFound => none
+
 /-- `conf.FieldsFromStruct`; with `declOrderMerge` repaired every collected name is re-resolved by
-`reflect`'s `FieldByName` (the proposed patch) -/
+`reflect`'s `FieldByName` -/
 def fieldsFromStruct (d : Defects) (σ : Table → Table) (t : Ty) : Table :=
   let raw := fieldsRaw d σ (t.depth + 1) t
   if d.declOrderMerge then raw else
-    raw.keys.foldr (fun n acc =>
-      match reflField t.deref n with
-      | .found f => if d.unexportedAccepted || f.exported then (n, { ty := some f.ty }) :: acc else acc
-      | .ambiguous => (n, { ambiguous := true }) :: acc
-      | .notFound => acc) []
+    raw.keys.filterMap fun n => (resolvedTag d t.deref n).map fun g => (n, g)
 
 /-- the environment as `CreateTypesTable` sees it: its type, and for a map value the keys of string
 kind with the dynamic types of the values -/
